@@ -329,6 +329,18 @@ def event_oracle(ctx, H, E):
                     ctx.finding(f"{name}:removed-{kind}", f"{name}: <{r}> containing {kind} is not removed cleanly "
                                 f"(state after the element differs from the state without it)",
                                 {"machine": name, "events": a, "without": pre0 + post0})
+        # order clause: [closed child, removed element, text, another child] inside one parent / one table cell
+        for open_, close_ in (([("S", "p", ())], [("E", "p")]),
+                              ([("S", "table", ()), ("S", "tr", ()), ("S", "td", ())], [("E", "td"), ("E", "tr"), ("E", "table")])):
+            sib_pre = open_ + [("D", "A "), ("S", "b", ()), ("D", "B"), ("E", "b")]
+            sib_post = [("D", " C "), ("S", "i", ()), ("D", "D"), ("E", "i")] + close_
+            for r in removable:
+                seg = ([("S", r, (("src", "x"),))] if r in STD_VOID else [("S", r, ()), ("D", "hid"), ("S", "img", ()), ("E", r)])
+                a = sib_pre + seg + sib_post
+                ctx.case((name, "order", a), True, kind=f"{name}-oracle:order")
+                if not same(name, cls, obs, a, sib_pre + sib_post):
+                    ctx.finding(f"{name}:order-around-removed", f"{name}: <{r}> between a closed sibling and following text changes where "
+                                f"that text is attached (events {a!r})", {"machine": name, "events": a, "without": sib_pre + sib_post})
         # comments at visible positions are inert
         for a, b in (([("S", "p", ()), ("D", "a"), ("C", "hid"), ("D", "b"), ("E", "p")], [("S", "p", ()), ("D", "a"), ("D", "b"), ("E", "p")]),
                      (pre0 + [("C", "<p>hid</p>")] + post0, pre0 + post0),
@@ -421,12 +433,37 @@ class Doc:
             return rng.choice(["</b>", "</p>", "</div>", "</span>", "</td>"]) + self.hid()
         if k == "nested-removable":
             if depth >= 2:
-                return "<script>var a='%s';</script>" % self.hid()
+                return "<script>%s</script>" % self.hostile_raw()
             r2 = rng.choice(["script", "style", "noscript", "iframe", "object", "applet", "embed"])
             return self.removable(r2, depth + 1)
         if k == "comment":
             return rng.choice(["<!-- %s -->", "<!-- <p>%s</p> -->", "<!--[if IE]>%s<![endif]-->"]) % self.hid()
         return "<![CDATA[ %s ]]>" % self.hid()
+
+    RAW = ["<!--", "-->", "<script", '<script src="x.js">', "<\\/script>", "</scr'+'ipt>", "<style>", "<style", "a<b", "if(a<b){c>d}",
+           "]]>", "<![CDATA[", "//<![CDATA[", "//]]>", "'", '"', "</b>", "</p>", "<p>%s</p>", "&amp;", "&lt;",
+           "document.write('<script src=\"x.js\"><\\/script>');", 'var s="<!--";', "<!-- p{} ", "\n", " ", ";", "%s", "var a='%s';",
+           ".c > p { color: %s }", "/* </b> */", "<!-- %s //-->"]
+
+    def hostile_raw(self):
+        """raw-text content for script/style from the hostile alphabet (never contains '</script' / '</style')"""
+        rng = self.rng
+        self.features.add("hostile-raw")
+        out = []
+        for _ in range(rng.randint(1, 6)):
+            pc = rng.choice(self.RAW)
+            out.append(pc % self.hid() if "%s" in pc else pc)
+        return rng.choice(["", " ", "\n"]).join(out)
+
+    def embed_child(self):
+        self.features.add("embed-child")
+        return self.rng.choice(['<embed src="m.swf">', '<embed src="m.swf"/>', '<embed src="m.swf"></embed>', "<embed/>",
+                                "<embed></embed>"]) + " " + self.hid() + " "
+
+    def hostile_text(self):
+        self.features.add("hostile-text")
+        return self.rng.choice([" a < b %s ", " %s ]]> ", " --> %s ", ' "%s" ', " '%s' ", " &lt;script&gt;%s&lt;/script&gt; ",
+                                "<!-- <script> %s -->", "<!-- --><!---->%s", "<![CDATA[ <p>%s</p> ]]>"]) % self.hid()
 
     def removable(self, r, depth=0):
         rng = self.rng
@@ -435,10 +472,12 @@ class Doc:
             self.features.add("void-removable")
             return rng.choice(['<embed src="m.swf" type="%s">' % self.hid(), "<embed src=x>", '<embed src="x"/>'])
         if r in ("script", "style"):
-            body = rng.choice(["var a = '%s'; if (a < 1 && 2 > 1) { document.write('<p>x</p>'); }", " /* </b> */ .c > p { color: %s }",
-                               "<!-- %s //-->", "%s"]) % self.hid()
-            return f"<{r}>{body}</{r}>"
-        items = [self.inner_item(r, depth) for _ in range(rng.randint(0, 4))]
+            attrs = rng.choice(["", "", ' type="text/x"', " defer"])
+            return f"<{r}{attrs}>{self.hostile_raw()}</{r}>"
+        items = []
+        for _ in range(rng.randint(0, 4)):
+            c = rng.random()
+            items.append(self.embed_child() if c < 0.2 else self.hostile_text() if c < 0.35 else self.inner_item(r, depth))
         attrs = rng.choice(["", ' class="c"', ' data="m.swf" width=1', ' src="about:blank"'])
         return f"<{r}{attrs}>" + "".join(items) + f"</{r}>"
 
@@ -451,7 +490,19 @@ class Doc:
     # visible blocks ---------------------------------------------------------------------------
     def block(self):
         rng = self.rng
-        k = rng.choice(["p", "div", "h", "list", "table", "link", "br", "inline-rem", "hr", "comment", "comment"])
+        k = rng.choice(["p", "div", "h", "list", "table", "link", "br", "inline-rem", "hr", "comment", "comment", "siblings", "siblings",
+                        "cell-siblings"])
+        if k == "siblings":
+            self.features.add("order")
+            a, b = self.vis(), self.vis()
+            rem = self.any_removable()
+            return f"<p>{a} <b>{b}</b>{rem} {self.vis()} <i>{self.vis()}</i> {self.vis()}</p>"
+        if k == "cell-siblings":
+            self.features.add("order")
+            self.features.add("table")
+            a, b = self.vis(True), self.vis(True)
+            rem = self.any_removable()
+            return f"<table><tr><td>{a}<b>{b}</b>{rem}{self.vis(True)}<i>{self.vis(True)}</i></td><td>{self.vis(True)}</td></tr></table>"
         if k == "comment":
             self.features.add("comment-visible")
             c = rng.randint(0, 3)
@@ -636,6 +687,49 @@ def text_level(ctx, H, E):
                 fails[path] = fails.get(path, 0) + 1
         return bad
 
+    def family(path, bad):
+        if path.startswith("read_epub"):
+            return "epub"
+        if (path.startswith("read_msg") or path.startswith("msg:")) and not any(p.startswith("read_html") for p, _ in bad):
+            return "msg"
+        return "html"
+
+    # hostile raw-text content, embed forms, sibling order: fixed probes ----------------------------------
+    raw_probes = [
+        ("hostile-raw-comment-open", '<p>vis1z</p><script>var s="<!--";</script><p>vis2z</p><!-- hid1z --><p>vis3z</p>', 3),
+        ("hostile-raw-comment-open", "<p>vis1z</p><style><!-- p{color:red} </style><p>vis2z</p><!-- hid1z --><p>vis3z</p>", 3),
+        ("hostile-raw-comment-open", "<!-- hid1z --><p>vis1z</p><script>x = '-->'; y = '<!--';</script><p>vis2z</p><!-- hid2z -->", 2),
+        ("hostile-raw-nested-name", "<p>vis1z</p><script>document.write('<script src=\"x.js\"><\\/script>');</script><p>vis2z</p>", 2),
+        ("hostile-raw-nested-name", "<p>vis1z</p><style>a<b <style> p{color:hid1z}</style><p>vis2z</p>", 2),
+        ("hostile-raw-lt", "<p>vis1z</p><script>if(a<b){c(hid1z)}</script><p>vis2z</p>", 2),
+        ("hostile-raw-lt", "<p>vis1z</p><script>for(i=0;i<n;i++){} var hid1z=\"</b>\"; //]]></script><p>vis2z</p>", 2),
+        ("hostile-raw-cdata", "<p>vis1z</p><script>//<![CDATA[\nvar hid1z = a<b && c]]>d;\n//]]></script><p>vis2z</p>", 2),
+        ("hostile-raw-split-end", "<p>vis1z</p><script>document.write('<scr'+'ipt>hid1z</scr'+'ipt>');</script><p>vis2z</p>", 2),
+        ("order-around-removed", "<p>vis1z <b>vis2z</b><script>var hid1z;</script> vis3z <i>vis4z</i></p>", 4),
+        ("order-around-removed", "<p>vis1z <b>vis2z</b><noscript><p>hid1z</p></noscript> vis3z <i>vis4z</i> vis5z</p>", 5),
+        ("order-around-removed", "<div>vis1z<br><embed src=x>vis2z<span>vis3z</span><object><param name=a>hid1z</object>vis4z</div>", 4),
+    ]
+    for r in ("noscript", "object", "iframe", "applet"):
+        for form in ('<embed src="m.swf">', '<embed src="m.swf"/>', '<embed src="m.swf"></embed>'):
+            raw_probes.append(("embed-child", f"<p>vis1z</p><{r}>{form}hid1z <p>hid2z</p></{r}><p>vis2z</p>", 2))
+    for kind, body, nvis in raw_probes:
+        d = Doc(rng)
+        d.visible, d.hidden = [f"vis{i}z" for i in range(1, nvis + 1)], ["hid1z", "hid2z"]
+        ctx.case(("text-probe", body), True, kind="text-probe")
+        bad = evaluate(body, d)
+        for path, why in bad:
+            ctx.finding(f"{family(path, bad)}:{kind}", f"{path}: {why} for {body!r}", {"path": path, "html_body": body, "why": why,
+                                                                                         "visible": d.visible, "hidden": d.hidden})
+    # ... and the same order clause inside a table cell
+    d = Doc(rng)
+    d.visible, d.cells, d.hidden = ["vis5z"], ["vis1z", "vis2z", "vis3z", "vis4z"], ["hid1z"]
+    body = "<table><tr><td>vis1z<b>vis2z</b><style>.hid1z{}</style>vis3z</td><td>vis4z</td></tr></table><p>vis5z</p>"
+    ctx.case(("text-probe", body), True, kind="text-probe")
+    bad = evaluate(body, d)
+    for path, why in bad:
+        ctx.finding(f"{family(path, bad)}:order-around-removed", f"{path}: {why} for {body!r}", {"path": path, "html_body": body, "why": why,
+                    "visible": d.visible, "cells": d.cells, "hidden": d.hidden})
+
     # fixed probes: every removable tag x every single kind of content -------------------------------
     probes = {
         "void-child": '<img src="x.png">', "unclosed-child": "<p>hid1z", "stray-end-tag": "</b>hid1z",
@@ -691,8 +785,9 @@ def text_level(ctx, H, E):
         body = d.body(rng.randint(1, 5))
         nontriv = any(f.startswith("rem:") for f in d.features)
         ctx.case(("doc", body), nontriv, kind="text-doc")
-        for path, why in evaluate(body, d):
-            fam = "epub" if path.startswith("read_epub") else "html"
+        bad = evaluate(body, d)
+        for path, why in bad:
+            fam = family(path, bad)
             # classify by the single-content probes of the same family that fail too
             kind = "other"
             for k in ("comment-visible", "void-removable", "void-child", "unclosed-child", "stray-end-tag", "nested-removable",
@@ -705,6 +800,8 @@ def text_level(ctx, H, E):
                     if any((p.startswith("read_epub") == (fam == "epub")) for p, _ in evaluate(f"<p>vis1z</p>{mk}<p>vis2z</p>", d2)):
                         kind = k
                         break
+            if kind == "other":
+                kind = next((k for k in ("hostile-raw", "embed-child", "order") if k in d.features), "other")
             key = f"{fam}:{kind}" if kind in ("void-removable", "comment-visible") else f"{fam}:removed-{kind}"
             ctx.finding(key, f"{path}: {why} for generated document", {"path": path, "html_body": body, "why": why,
                                                                          "visible": d.visible, "cells": d.cells, "hidden": d.hidden})
@@ -834,8 +931,11 @@ def chapters_independent(ctx, H, E):
                     why = check_tokens(ch.text, [], d.visible, d.cells, d.hidden, [c for tb in ch.tables for row in tb for c in row])
                     if not why and ch.title != f"ttl{k + 1}z":
                         why = f"title lost: {ch.title!r}"
-                    if why:
-                        bad.append((k, "tokens", why, ""))
+                    if why and not any(b[0] == k for b in bad):
+                        # wrong on its own as well (chapter k equals its one-chapter extraction): not a carry-over
+                        fails["read_epub:book-chapter"] = fails.get("read_epub:book-chapter", 0) + 1
+                        ctx.finding("epub:book-chapter-content", f"read_epub: chapter {k + 1} of a {len(chs)}-chapter book: {why}",
+                                    {"path": "read_epub:book", "chapters": chs, "chapter": k, "why": why})
         if bad:
             k, field, x, y = bad[0]
             first = next((kk for kk in kinds[:max(k, 0)] if kk), None) or hazard or "clean"
@@ -1020,6 +1120,82 @@ def reuse_facts(ctx):
                    {"_HtmlTreeBuilder", "_HtmlTextExtractor"} <= g, str(sorted(g)))
 
 
+def tokenizer_facts(ctx, H, E):
+    """The tokenizer the model takes as its oracle is html.parser's DEFAULT tokenizer, fed with the
+    document as it is: configuration and call sites are obligations (fail closed)."""
+    import ast
+    import inspect
+    from html.parser import HTMLParser
+    from common import REPO
+    allowed_overrides = {"__init__", "handle_starttag", "handle_endtag", "handle_data", "handle_comment", "__doc__", "__module__",
+                         "__qualname__", "__firstlineno__", "__static_attributes__", "__annotations__"}
+    for cls in (H._HtmlTreeBuilder, E._XhtmlTextExtractor):
+        n = cls.__name__
+        ctx.obligation(f"tokenizer-config:{n}.CDATA_CONTENT_ELEMENTS is html.parser's default",
+                       tuple(cls.CDATA_CONTENT_ELEMENTS) == tuple(HTMLParser.CDATA_CONTENT_ELEMENTS) == ("script", "style"),
+                       repr(cls.CDATA_CONTENT_ELEMENTS))
+        inst = cls()
+        ctx.obligation(f"tokenizer-config:{n} convert_charrefs=True, fresh tokenizer state",
+                       inst.convert_charrefs is True and inst.rawdata == "" and inst.cdata_elem is None,
+                       repr((inst.convert_charrefs, inst.rawdata, inst.cdata_elem)))
+        over = sorted(k for k in vars(cls) if hasattr(HTMLParser, k) and k not in allowed_overrides)
+        ctx.obligation(f"tokenizer-config:{n} overrides no html.parser method besides the four modelled handlers", not over,
+                       f"overridden: {over}")
+        mro_ok = [c.__name__ for c in cls.__mro__[1:]][:1] == ["HTMLParser"]
+        ctx.obligation(f"tokenizer-config:{n} derives directly from html.parser.HTMLParser", mro_ok, str(cls.__mro__))
+
+    # no pre-pass over the markup before feed(): in every function that calls .feed(...) the argument is a plain name
+    # whose only definitions are a parameter, X.decode(...) or ctx.read_text(...), and nothing rewrites text before the feed
+    base = REPO / "sharepoint2text" / "parsing" / "extractors"
+    REWRITE = {"sub", "subn", "replace", "translate", "split", "join", "format", "strip", "lstrip", "rstrip", "lower", "upper",
+               "escape", "unescape", "normalize", "expandtabs", "removeprefix", "removesuffix"}
+    sites = {("html_extractor.py", "read_html"), ("mail/msg_email_extractor.py", "_html_to_text"), ("epub_extractor.py", "_extract_chapter")}
+    found = set()
+    problems = []
+    for rel in ("html_extractor.py", "mhtml_extractor.py", "epub_extractor.py", "mail/msg_email_extractor.py"):
+        tree = ast.parse((base / rel).read_text(encoding="utf-8"))
+        for fn in [f for f in ast.walk(tree) if isinstance(f, (ast.FunctionDef, ast.AsyncFunctionDef))]:
+            feeds = [c for c in ast.walk(fn) if isinstance(c, ast.Call) and isinstance(c.func, ast.Attribute) and c.func.attr == "feed"]
+            if not feeds:
+                continue
+            found.add((rel, fn.name))
+            if (rel, fn.name) not in sites:
+                problems.append(f"{rel}:{fn.name}: new feed() site")
+            params = {a.arg for a in fn.args.args + fn.args.kwonlyargs}
+            for c in feeds:
+                if len(c.args) != 1 or not isinstance(c.args[0], ast.Name):
+                    problems.append(f"{rel}:{fn.name}:{c.lineno}: feed() argument is not a plain name: {ast.unparse(c)}")
+                    continue
+                var = c.args[0].id
+                defs = [a for a in ast.walk(fn) if isinstance(a, ast.Assign) and any(isinstance(tg, ast.Name) and tg.id == var for tg in a.targets)]
+                defs += [a for a in ast.walk(fn) if isinstance(a, (ast.AugAssign, ast.AnnAssign)) and isinstance(a.target, ast.Name) and a.target.id == var]
+                if not defs and var not in params:
+                    problems.append(f"{rel}:{fn.name}: feed({var}) with unknown origin")
+                for a in defs:
+                    v = getattr(a, "value", None)
+                    okv = (isinstance(v, ast.Call) and isinstance(v.func, ast.Attribute) and v.func.attr in ("decode", "read_text"))
+                    if not okv:
+                        problems.append(f"{rel}:{fn.name}:{a.lineno}: {var} is rewritten before feed(): {ast.unparse(a)[:80]}")
+                # nothing that rewrites text runs before the feed in this function
+                for call in ast.walk(fn):
+                    if isinstance(call, ast.Call) and call.lineno <= c.lineno:
+                        f = call.func
+                        nm = f.attr if isinstance(f, ast.Attribute) else getattr(f, "id", "")
+                        if nm in REWRITE or (isinstance(f, ast.Attribute) and isinstance(f.value, ast.Name) and f.value.id == "re"):
+                            problems.append(f"{rel}:{fn.name}:{call.lineno}: text rewriting call before feed(): {ast.unparse(call)[:80]}")
+        # MHTML: the only rewriting of the extracted HTML bytes is base64 whitespace removal (allow-listed)
+        if rel == "mhtml_extractor.py":
+            for call in ast.walk(tree):
+                if isinstance(call, ast.Call) and isinstance(call.func, ast.Attribute) and call.func.attr in ("sub", "subn", "replace", "translate"):
+                    src = ast.unparse(call)
+                    if not src.startswith("_RE_BASE64_WS.sub(b''"):
+                        problems.append(f"{rel}:{call.lineno}: rewriting call in the MHTML path: {src[:80]}")
+    missing = sites - found
+    ctx.obligation("tokenizer-config:no rewriting pre-pass over the markup before feed() (read_html, read_mhtml, _html_to_text, "
+                   "_extract_chapter; today's sites allow-listed)", not problems and not missing,
+                   "; ".join(problems + [f"feed() site disappeared: {m}" for m in sorted(missing)]))
+
+
 def run(ctx):
     import logging
     logging.disable(logging.CRITICAL)
@@ -1049,6 +1225,7 @@ def run(ctx):
         "C17_html_void_matches_standard", "C17_epub_void_matches_standard", "C17_hypotheses_satisfiable"])
 
     reuse_facts(ctx)
+    tokenizer_facts(ctx, H, E)
     event_correspondence(ctx, H, E)
     feed_correspondence(ctx, H, E)
     event_oracle(ctx, H, E)
